@@ -74,6 +74,16 @@ def score_cases(draw, tier):
 
 
 def check_score(case, ctx):
+    # generation dominates the cost: the drawn scheme, then the base-16 'decoder' scheme (every count term weighs
+    # differently, so any miscount shows whatever the drawn penalties are) and the drawn scheme with B/T swapped roles
+    check_score_one(case, ctx)
+    if case.get("batched", True):
+        c = dict(case)
+        c["scheme"], c["batched"] = DECODER, False
+        check_score_one(c, ctx)
+
+
+def check_score_one(case, ctx):
     scheme, rankings, cand = case["scheme"], case["dataset"]["rankings"], case["cand"]
     d = lib.mk_dataset(rankings)
     s = lib.mk_scheme(scheme)
